@@ -6,10 +6,10 @@ package layout
 
 import (
 	"fmt"
-	"unicode/utf8"
 	"runtime/debug"
 	"strings"
 	"sync"
+	"unicode/utf8"
 
 	"github.com/prometheus/common/model"
 
@@ -51,15 +51,15 @@ type PosR struct {
 }
 
 type Node struct {
-	Field string `json:"field"` // alert | record | expr | for | keep_firing_for | labels | labels.k1 | labels.v1 | annotations...
-	Val   string `json:"val"`   // value, whitespace runs collapsed to one blank, trimmed
-	Rb    string `json:"rb"`    // characters at Pos read back from the file, collapsed the same way
-	Pos   []PosR `json:"pos"`
-	Out   int    `json:"out"`  // number of position cells that are not in the file
-	VLen  int    `json:"vlen"` // len(value) in bytes
-	PLen  int    `json:"plen"` // number of position cells
-	Raw   string `json:"-"`
-	RawA  string `json:"raw,omitempty"` // the value itself (2-byte rune -> placeholder); only with WithRaw
+	Field string               `json:"field"` // alert | record | expr | for | keep_firing_for | labels | labels.k1 | labels.v1 | annotations...
+	Val   string               `json:"val"`   // value, whitespace runs collapsed to one blank, trimmed
+	Rb    string               `json:"rb"`    // characters at Pos read back from the file, collapsed the same way
+	Pos   []PosR               `json:"pos"`
+	Out   int                  `json:"out"`  // number of position cells that are not in the file
+	VLen  int                  `json:"vlen"` // len(value) in bytes
+	PLen  int                  `json:"plen"` // number of position cells
+	Raw   string               `json:"-"`
+	RawA  string               `json:"raw,omitempty"` // the value itself (2-byte rune -> placeholder); only with WithRaw
 	P     diags.PositionRanges `json:"-"`
 }
 
